@@ -298,11 +298,13 @@ func runC02(c *Ctx, r *Run) {
 		name := c.FuncName(fn)
 		r.Analysed(name)
 		var ev *ssa.Call
-		allInstrs(fn, func(in ssa.Instruction) {
-			if e := isEvaluate(valueOf(in)); e != nil {
-				ev = e
-			}
-		})
+		for _, f := range regionOf(fn) {
+			allInstrs(f, func(in ssa.Instruction) {
+				if e := isEvaluate(valueOf(in)); e != nil {
+					ev = e
+				}
+			})
+		}
 		if ev == nil {
 			r.Fail("EVAL-S", name+"|feldman", c.Pos(fn.Pos()), "the received sub-share is compared with the sender's committed polynomial", "no Evaluate of the sender's commitment polynomial in StoreMessage: sub-shares are accepted unverified")
 			continue
@@ -310,7 +312,7 @@ func runC02(c *Ctx, r *Run) {
 		id := idOfScalarCall(argsOf(ev)[0])
 		self := false
 		if id != nil {
-			for _, l := range paramFields(fn, id) {
+			for _, l := range paramFieldsUp(id) {
 				if strings.HasSuffix(l, "SelfID()") {
 					self = true
 				}
@@ -318,12 +320,13 @@ func runC02(c *Ctx, r *Run) {
 		}
 		r.Check("EVAL-S", name+"|at own identifier", c.Pos(ev.Pos()), self, "the commitment polynomial is evaluated at the receiver's own identifier",
 			"the Feldman check evaluates at "+pathOr(id)+" instead of SelfID(): a dealer can hand this party a share of a different point")
-		fromOK := containsField(paramFields(fn, recvOf(ev)), site.polyField)
+		fromOK := containsField(paramFieldsUp(recvOf(ev)), site.polyField)
 		r.Check("EVAL-S", name+"|sender's polynomial", c.Pos(ev.Pos()), fromOK, "the polynomial is the one committed by the message's sender ("+site.polyField+")", "the evaluated polynomial is not indexed by msg.From")
 		// the result gates acceptance
 		gate := false
-		for _, g := range rejectGuards(fn) {
-			if guardCoversAccepts(g) && dependsOn(g.cond, func(v ssa.Value) bool { return v == ssa.Value(ev) }) {
+		for _, g := range liftedGuards(fn, 0) {
+			covers := !g.notCovering && (g.inner != nil || guardCoversAccepts(g))
+			if covers && dependsOn(g.cond, func(v ssa.Value) bool { return v == ssa.Value(ev) }) {
 				gate = true
 			}
 		}
@@ -365,7 +368,7 @@ func runC02(c *Ctx, r *Run) {
 		name := c.FuncName(fn)
 		r.Analysed(name)
 		var sum *ssa.Call
-		for _, call := range callsNamed(fn, "Sum") {
+		for _, call := range callsNamedR(fn, "Sum") {
 			sum = call
 		}
 		sumOK := false
@@ -373,7 +376,7 @@ func runC02(c *Ctx, r *Run) {
 			// the argument slice is appended to inside a range over the whole table of polynomials
 			sumOK = dependsOn(sum.Call.Args[0], func(v ssa.Value) bool {
 				if rg, ok := v.(*ssa.Range); ok {
-					return containsField(paramFields(fn, rg.X), site.polys)
+					return containsField(paramFieldsUp(rg.X), site.polys)
 				}
 				return false
 			})
@@ -399,13 +402,16 @@ func runC02(c *Ctx, r *Run) {
 			}
 			entries++
 			id := idOfScalarCall(argsOf(ev)[0])
+			if id != nil {
+				id = callerVal(id)
+			}
 			if id == nil || !(sameObject(id, mu.Key) || path(id) == path(mu.Key)) {
 				okAll = false
 				bad = fmt.Sprintf("entry %s is evaluated at %s", path(mu.Key), pathOr(id))
 			}
 			if sum != nil {
-				rv := recvOf(ev)
-				if ex, ok := resolveLoad(rv).(*ssa.Extract); !ok || ex.Tuple != ssa.Value(sum) {
+				rv := resultThroughHelpers(resolveLoad(callerVal(recvOf(ev))))
+				if ex, ok := rv.(*ssa.Extract); !ok || ex.Tuple != ssa.Value(sum) {
 					okAll = false
 					bad = "the evaluated polynomial is not the sum"
 				}
@@ -436,9 +442,9 @@ func runC02(c *Ctx, r *Run) {
 		})
 		// the accumulation ranges over all parties
 		loopAll := false
-		for _, call := range callsNamed(fn, "Add") {
+		for _, call := range callsNamedR(fn, "Add") {
 			if blockInLoop(call.Block()) && len(call.Call.Args) == 1 {
-				if lk, isLk := resolveLoad(call.Call.Args[0]).(*ssa.Lookup); isLk && containsField(paramFields(fn, lk.X), "recv.ShareReceived") {
+				if lk, isLk := resolveLoad(call.Call.Args[0]).(*ssa.Lookup); isLk && containsField(paramFieldsUp(lk.X), "recv.ShareReceived") {
 					// the index ranges over PartyIDs() (all parties, self included), not OtherPartyIDs()
 					if dependsOn(lk.Index, func(v ssa.Value) bool {
 						call, ok := v.(*ssa.Call)
